@@ -239,39 +239,44 @@ func runC13(c *kit.Ctx) {
 		fMS := c.Field("internal/peerprotocol", "ExtensionHandshakeMessage", "MetadataSize")
 		fMax := c.Field("torrent", "Config", "MaxMetadataSize")
 		fM := c.Field("internal/peerprotocol", "ExtensionHandshakeMessage", "M")
+		_ = next
+		killMS := func(ins ssa.Instruction, in bool) bool {
+			if in && c.KillsField(ins, fMS) {
+				return false
+			}
+			return in
+		}
+		hasEH := c.FieldNilSpec(fEH, false, kit.DefaultDeep)
+		capOK := &kit.Spec{P: c.Prog, Deep: kit.DefaultDeep, Instr: killMS, Edge: func(a kit.Atom) bool {
+			ok, _ := a.UpperBound(func(e *kit.Expr) bool { return e.Strip().IsField(fMS) }, func(e *kit.Expr) bool { return e.Strip().IsField(fMax) })
+			return ok
+		}}
+		nonZero := &kit.Spec{P: c.Prog, Deep: kit.DefaultDeep, Instr: killMS, Edge: func(a kit.Atom) bool {
+			z, ok := a.R.IntConst()
+			if !ok || z != 0 || !a.L.Strip().IsField(fMS) {
+				return false
+			}
+			return a.Op == token.NEQ || a.Op == token.GTR
+		}}
+		hasKey := &kit.Spec{P: c.Prog, Deep: kit.DefaultDeep, Edge: func(a kit.Atom) bool {
+			return a.IsTrue(func(e *kit.Expr) bool {
+				return e.Kind == "extract" && e.Idx == 1 && e.Args[0].Kind == "lookup" && e.Args[0].Args[0].IsField(fM)
+			})
+		}}
 		n := 0
 		for _, s := range sortSites(c.CallSites(idNew)) {
 			n++
 			key := k.key(s.Fn, "infodownloader.New")
-			if s.Fn != next {
-				c.Bad("R13.2", key, posOf(s.Instr), "info downloader created outside nextInfoDownload: size cap not shown")
-				continue
-			}
-			hasEH := c.FieldNil(next, fEH, false)
-			capOK := c.AtomFlow(next, func(a kit.Atom) bool {
-				ok, _ := a.UpperBound(func(e *kit.Expr) bool { return e.Strip().IsField(fMS) }, func(e *kit.Expr) bool { return e.Strip().IsField(fMax) })
-				return ok
-			}, func(ins ssa.Instruction) bool { return c.KillsField(ins, fMS) })
-			nonZero := c.AtomFlow(next, func(a kit.Atom) bool {
-				z, ok := a.R.IntConst()
-				if !ok || z != 0 || !a.L.Strip().IsField(fMS) {
-					return false
-				}
-				return a.Op == token.NEQ || a.Op == token.GTR
-			}, func(ins ssa.Instruction) bool { return c.KillsField(ins, fMS) })
-			hasKey := c.AtomFlow(next, func(a kit.Atom) bool {
-				return a.IsTrue(func(e *kit.Expr) bool {
-					return e.Kind == "extract" && e.Idx == 1 && e.Args[0].Kind == "lookup" && e.Args[0].Args[0].IsField(fM)
-				})
-			}, nil)
+			// the facts may be established in the function itself or, when the call sits in a
+			// helper, before every call of that helper
 			switch {
-			case !hasEH.Before(s.Instr):
+			case !hasEH.Holds(s.Instr, 2):
 				c.Bad("R13.2", key, posOf(s.Instr), "peer may have no extension handshake")
-			case !capOK.Before(s.Instr):
+			case !capOK.Holds(s.Instr, 2):
 				c.Bad("R13.2", key, posOf(s.Instr), "metadata download started without MetadataSize <= config.MaxMetadataSize: an announced size above the maximum would be allocated and fetched")
-			case !nonZero.Before(s.Instr):
+			case !nonZero.Holds(s.Instr, 2):
 				c.Bad("R13.2", key, posOf(s.Instr), "metadata download started for MetadataSize==0")
-			case !hasKey.Before(s.Instr):
+			case !hasKey.Holds(s.Instr, 2):
 				c.Bad("R13.2", key, posOf(s.Instr), "peer did not advertise the metadata extension key")
 			default:
 				c.OK("R13.2", key, posOf(s.Instr), "info downloader only for a peer with handshake, metadata key and 0 != MetadataSize <= MaxMetadataSize")
